@@ -88,3 +88,50 @@ func ZZ_C07_nodesReturn() {
 	nondet.Reach("C07.return.replaced", deletedCanary)
 	nondet.Reach("C07.return.created", createdOnNode0)
 }
+
+// ZZ_C07_userFailedSurvives: "marked failed, automatically or by the user": kubectl-eds canary
+// fail sets only the Canary-Failed condition of the canary replica set (status.status still reads
+// "canary").  If the replica-set controller syncs that replica set before the ExtendedDaemonSet
+// controller has processed the failure, the mark must survive — otherwise the rollback never
+// happens — and the failed canary creates no further pod.
+func ZZ_C07_userFailedSurvives() {
+	c, ds, rsCanary, rsActive := zzStore(2) // foo-new = canary, foo-old = active
+	ds.Spec.Strategy.Canary = &datadoghqv1alpha1.ExtendedDaemonSetSpecStrategyCanary{}
+	datadoghqv1alpha1.DefaultExtendedDaemonSetSpec(&ds.Spec, datadoghqv1alpha1.ExtendedDaemonSetSpecStrategyCanaryValidationModeAuto)
+	ds.Status.ActiveReplicaSet = rsActive.Name
+	ds.Status.Canary = &datadoghqv1alpha1.ExtendedDaemonSetStatusCanary{ReplicaSet: rsCanary.Name, Nodes: []string{zzNodeName(0)}}
+	ds.Status.State = datadoghqv1alpha1.ExtendedDaemonSetStatusStateCanary
+	at := metav1.NewTime(nondet.Base().Add(-5 * 1e9))
+	// what earlier syncs of the replica-set controller left in the status of the canary
+	rsCanary.Status.Status = nondet.String("canary.statusString", "canary", "", "canary-failed")
+	if nondet.Bool("canary.otherConditionsFirst") {
+		rsCanary.Status.Conditions = append(rsCanary.Status.Conditions, datadoghqv1alpha1.ExtendedDaemonSetReplicaSetCondition{Type: datadoghqv1alpha1.ConditionTypeCanary, Status: corev1.ConditionTrue, LastTransitionTime: at, LastUpdateTime: at})
+	}
+	// the user's mark
+	rsCanary.Status.Conditions = append(rsCanary.Status.Conditions, datadoghqv1alpha1.ExtendedDaemonSetReplicaSetCondition{Type: datadoghqv1alpha1.ConditionTypeCanaryFailed, Status: corev1.ConditionTrue, Reason: "ManuallyFailed", LastTransitionTime: at, LastUpdateTime: at})
+	if nondet.Bool("canaryPodExists") {
+		p := zzPod("canary-pod", zzNodeName(0), rsCanary.Name, zzHashNew, 0, corev1.PodRunning, nondet.Bool("canaryPodReady"), nondet.Base().Add(-600*1e9))
+		p.Labels[datadoghqv1alpha1.ExtendedDaemonSetReplicaSetCanaryLabelKey] = datadoghqv1alpha1.ExtendedDaemonSetReplicaSetCanaryLabelValue
+		c.Pods = append(c.Pods, p)
+	}
+	c.Pods = append(c.Pods, zzPod("active-pod", zzNodeName(1), rsActive.Name, zzHashOld, 0, corev1.PodRunning, true, nondet.Base().Add(-3600*1e9)))
+
+	_, err := zzReconcile(zzReconciler(c, false), zzNS, rsCanary.Name)
+	nondet.Assert("C07.user.noerror", err == nil)
+	stillFailed := false
+	for _, s := range c.ERS {
+		if s.Name == rsCanary.Name {
+			for _, cd := range s.Status.Conditions {
+				if cd.Type == datadoghqv1alpha1.ConditionTypeCanaryFailed && cd.Status == corev1.ConditionTrue {
+					stillFailed = true
+				}
+			}
+		}
+	}
+	nondet.Assert("C07.user.mark-survives", stillFailed)
+	for _, e := range c.Log {
+		nondet.Assert("C07.user.no-create", !(e.Kind == "Pod" && e.Verb == "create"))
+	}
+	nondet.Observe("stillFailed", stillFailed)
+	nondet.Reach("C07.user.status-string-canary", rsCanary.Status.Status == "canary")
+}
